@@ -34,8 +34,9 @@ zix_bump_malloc(ZixAllocator* const allocator, const size_t size)
      but sizeof(uintmax_t) is more than enough on all the common ones. */
 
   const size_t real_size = round_up_multiple(size, min_alignment);
-  if (state->top + real_size > state->capacity) {
-    return NULL;
+  if (real_size < size || state->top > state->capacity ||
+      real_size > state->capacity - state->top) {
+    return NULL; // Rounded size wrapped around, or doesn't fit in the space left
   }
 
   state->last = state->top;
